@@ -505,7 +505,14 @@ impl Ctx {
                     let cls = RefCell::new(Classifier::default());
                     let last_fail: RefCell<Option<Failure>> = RefCell::new(None);
                     let strat = mk();
+                    // shrinking gets a wall-clock budget: cases that take seconds each (a CLI run diagnosed as hung
+                    // only after its CPU budget) would otherwise be re-run hundreds of times. Past the budget every
+                    // candidate "passes", so the smallest failing case found so far is what is reported.
+                    let first_fail_at: std::cell::Cell<Option<std::time::Instant>> = std::cell::Cell::new(None);
                     let r = runner.run(&strat, |case| {
+                        if first_fail_at.get().map(|t| t.elapsed() > std::time::Duration::from_secs(20)).unwrap_or(false) {
+                            return Ok(());
+                        }
                         let mut c = cls.borrow_mut();
                         c.eval();
                         match judge(&case, &mut c) {
@@ -520,6 +527,9 @@ impl Ctx {
                                     }
                                 }
                                 c.frozen = true;
+                                if first_fail_at.get().is_none() {
+                                    first_fail_at.set(Some(std::time::Instant::now()));
+                                }
                                 let msg = f.note.clone();
                                 *last_fail.borrow_mut() = Some(f);
                                 Err(TestCaseError::fail(msg))
